@@ -11,6 +11,16 @@ package c20
 // connection, lets the losers of the race finish, and goes on. After the last heal a tail of single-address dials
 // follows.
 //
+// What a dial leaves behind is drawn per run (each with probability 1/3, 0 = the harness cleans up): the dial back-off of
+// failed dials (an address the detector lets through may then not be dialled: no record), the peerstore addresses of
+// earlier dials of the target (the request concerns the union), and - for a quarter of D's successful dials - the open
+// connection (the next DialPeer returns it: no detector request, the counters must not move). The reference is fed only
+// by what was then really observed. The tail always starts without open connections and with a single address; it keeps
+// the back-off in half of the keepBackoff runs (a tail dial stopped by back-off voids oracle (4) for that run).
+// There is no warm-up: the first dial of D (and of R) happens inside a black hole whenever the drawn initial environment
+// has one (UDP 1/4, IPv6 1/6). State() - the only call made just to observe - takes the counter's lock and returns the
+// field; ConnsToPeer is a read under the swarm's read lock.
+//
 // What D attempted is read off the wire (QUIC Initial packets seen by the UDP filter, simnet.Dials() for TCP); what it
 // refused from the DialError (ErrDialRefusedBlackHole per address); what succeeded from the connection returned. The
 // reference is the window semantics of the statement applied to these observations. It is SET-VALUED where the
@@ -25,7 +35,9 @@ package c20
 //	                                                  from a failed DialPeer's report without having been dialled
 //	refused-without-full-bad-window/<kinds>           (2) refusal although no possible reference window is full and bad
 //	no-probe-within-window/<kind>                     (3) N consecutive requests with public addresses of the kind, made while
-//	                                                  the detector's State() is Blocked, all refused
+//	                                                  the detector's State() is Blocked, refused by that detector: an address
+//	                                                  only it may act on was refused (its probe would have let it through), or
+//	                                                  the request has only UDP+IPv6 addresses and all were refused
 //	liveness/no-success-after-heal/<kind>             (4) none of the first N+1 single-address dials after the heal connects
 //	liveness/refused-after-recovery/<kind>            (4) a refusal after a tail dial connected while the detector was refusing
 //	                                                  (that success clears it), every dial since having connected. A first
@@ -129,11 +141,14 @@ const (
 )
 
 type sOp struct {
-	kind   int
-	target int
-	addrs  []*sAddr
-	settle time.Duration
-	tail   int // 0 main phase, 1 UDP tail, 2 IPv6 tail
+	kind     int
+	target   int
+	add      []*sAddr // drawn: the addresses this operation puts into the peerstore
+	settle   time.Duration
+	tail     int  // 0 main phase, 1 UDP tail, 2 IPv6 tail
+	keepConn bool // drawn: leave the connection open afterwards (the next dial of the target meets it)
+
+	addrs []*sAddr // what the peerstore holds for the target when DialPeer is called (add + what earlier dials left)
 
 	// observations
 	t0, t1    time.Duration
@@ -146,6 +161,8 @@ type sOp struct {
 	cause     map[string]string // address -> "blackhole" | "backoff" | other error text (first words)
 	onWire    map[string]bool   // address strings attempted on the wire by the acting node
 	canDial   bool
+	reused    bool // DialPeer returned a connection that was already open before the call
+	skipped   int  // DialError.Skipped
 }
 
 func sysIP(class, i, k int) string {
@@ -222,10 +239,10 @@ func runSystem(t *testing.T, tape *simrt.Tape, g simrt.Gen, o *common.Outcome) {
 		switch op.kind {
 		case sDial, sRODial:
 			op.target = g.Int(nT)
-			op.addrs = drawSet(targets[op.target], op.target)
+			op.add = drawSet(targets[op.target], op.target)
 		case sROCanDial:
 			op.target = g.Int(nT)
-			op.addrs = drawSet(targets[op.target], op.target)[:1]
+			op.add = drawSet(targets[op.target], op.target)[:1]
 		}
 		ops = append(ops, op)
 	}
@@ -235,9 +252,27 @@ func runSystem(t *testing.T, tape *simrt.Tape, g simrt.Gen, o *common.Outcome) {
 			tailLen[k] = 2*cfgN[k] + 2
 		}
 	}
+	// What one dial leaves behind for the next one (drawn per run, 0 = the harness cleans up everything):
+	//   keepBackoff  the dial back-off of failed (e.g. black-holed) dials is not cleared: an address the detector lets
+	//                through may then not be dialled at all (no record; a probe slot spent on it is counted as a probe)
+	//   keepAddrs    the peerstore keeps the addresses of earlier dials of the target (up to 9): the request concerns the union
+	//   keepConns    a quarter of D's successful dials leave their connection open: the next DialPeer of that target
+	//                returns it without any detector request
+	keepBackoff := g.Chance(1, 3)
+	keepAddrs := g.Chance(1, 3)
+	keepConns := g.Chance(1, 3)
+	tailKeepsBackoff := keepBackoff && g.Chance(1, 2)
+	if keepConns {
+		for _, op := range ops {
+			if op.kind == sDial {
+				op.keepConn = g.Chance(1, 4)
+			}
+		}
+	}
 	seed := uint64(cfgN[0]*1000 + cfgN[1]*100 + cfgM[0]*10 + cfgM[1])
 	o.Logf("stratum=system udp{N=%d M=%d} ipv6{N=%d M=%d} readOnlySwarm=%v targets=%d ops=%d tail=%v env0{udpDown=%v ipv6Down=%v}",
 		cfgN[0], cfgM[0], cfgN[1], cfgM[1], withRO, nT, len(ops), tailLen, down0[0], down0[1])
+	o.Logf(" left behind between dials: backoff=%v (tail too: %v) addresses=%v connections=%v", keepBackoff, tailKeepsBackoff, keepAddrs, keepConns)
 	for i, tg := range targets {
 		o.Logf(" target %d listens on %v (tcp+quic, port 4001)", i, tg.ips)
 	}
@@ -330,7 +365,7 @@ func runSystem(t *testing.T, tape *simrt.Tape, g simrt.Gen, o *common.Outcome) {
 				}
 			}
 			for _, op := range ops {
-				for _, a := range op.addrs {
+				for _, a := range op.add {
 					if a.ip6 && !a.quic && !seen[a.key] {
 						seen[a.key] = true
 						n.SetBlackhole(a.key, v)
@@ -338,6 +373,7 @@ func runSystem(t *testing.T, tape *simrt.Tape, g simrt.Gen, o *common.Outcome) {
 				}
 			}
 		}
+		accum := map[[2]int][]*sAddr{} // (actor, target) -> addresses the peerstore holds
 		if down[1] {
 			setV6TCP(true)
 		}
@@ -371,26 +407,57 @@ func runSystem(t *testing.T, tape *simrt.Tape, g simrt.Gen, o *common.Outcome) {
 			w0 := len(wire)
 			wmu.Unlock()
 			d0 := len(n.Dials())
+			kept := false
 			if op.kind == sROCanDial {
+				op.addrs = op.add
 				op.canDial = actor.Swarm.CanDial(pid, op.addrs[0].m)
 			} else {
-				actor.Swarm.Backoff().Clear(pid)
-				actor.PS.ClearAddrs(pid)
+				ak := [2]int{0, op.target}
+				if actor == R {
+					ak[0] = 1
+				}
+				if !keepBackoff || (op.tail > 0 && !tailKeepsBackoff) {
+					actor.Swarm.Backoff().Clear(pid)
+				}
+				if !keepAddrs || op.tail > 0 || len(accum[ak])+len(op.add) > 9 {
+					actor.PS.ClearAddrs(pid)
+					accum[ak] = nil
+				}
+				for _, a := range op.add {
+					dup := false
+					for _, b := range accum[ak] {
+						dup = dup || b.s == a.s
+					}
+					if !dup {
+						accum[ak] = append(accum[ak], a)
+					}
+				}
+				op.addrs = append([]*sAddr(nil), accum[ak]...)
 				var mas []ma.Multiaddr
-				for _, a := range op.addrs {
+				for _, a := range op.add {
 					mas = append(mas, a.m)
 				}
 				actor.PS.AddAddrs(pid, mas, peerstore.PermanentAddrTTL)
+				open := map[string]bool{}
+				for _, c := range actor.Swarm.ConnsToPeer(pid) {
+					open[c.ID()] = true
+				}
 				conn, err := actor.Swarm.DialPeer(context.Background(), pid)
 				if err == nil {
 					op.conn = true
 					op.winner = conn.RemoteMultiaddr().String()
-					conn.Close()
+					op.reused = open[conn.ID()]
+					if op.keepConn {
+						kept = true
+					} else {
+						conn.Close()
+					}
 				} else {
 					op.errStr = firstLines(err.Error(), 1)
 					var de *swarm.DialError
 					if errors.As(err, &de) {
 						op.dialErr = true
+						op.skipped = de.Skipped
 						op.cause = map[string]string{}
 						for _, te := range de.DialErrors {
 							c := "error"
@@ -408,12 +475,12 @@ func runSystem(t *testing.T, tape *simrt.Tape, g simrt.Gen, o *common.Outcome) {
 			// let the losers of the race finish (they are cancelled when DialPeer returns; one that completed its
 			// handshake first is added to the swarm as a second connection) and the close travel
 			simrt.TimeSleep(op.settle)
-			if op.kind != sROCanDial {
+			if op.kind != sROCanDial && !kept {
 				actor.Swarm.ClosePeer(pid)
 				simrt.TimeSleep(50 * time.Millisecond)
 			}
 			simrt.WaitIdle()
-			if c := actor.Swarm.ConnsToPeer(pid); len(c) > 0 {
+			if c := actor.Swarm.ConnsToPeer(pid); len(c) > 0 && !kept {
 				trouble = fmt.Sprintf("harness: %d connections to target %d survive ClosePeer", len(c), op.target)
 				return
 			}
@@ -475,8 +542,11 @@ func runSystem(t *testing.T, tape *simrt.Tape, g simrt.Gen, o *common.Outcome) {
 				a = targets[1].alive[1] // public tcp6
 			}
 			ti := k
+			// the tail is the controlled experiment: single address, no connection left open from the main phase
+			D.Swarm.ClosePeer(targets[ti].node.ID)
+			simrt.TimeSleep(50 * time.Millisecond)
 			for i := 0; i < tailLen[k]; i++ {
-				op := &sOp{kind: sDial, target: ti, addrs: []*sAddr{a}, settle: settles[0], tail: k + 1}
+				op := &sOp{kind: sDial, target: ti, add: []*sAddr{a}, settle: settles[0], tail: k + 1}
 				exec(op)
 				ops = append(ops, op)
 			}
@@ -698,12 +768,22 @@ func checkSystem(o *common.Outcome, ops []*sOp, cfgN, cfgM [2]int) {
 			fmt.Fprintf(&line, " [%s %s %s]", a.s, a.class(), []string{"not-seen", "dialled", "REFUSED"}[obs[j]])
 		}
 		o.Logf("%s", line.String())
-		fmt.Fprintf(&sig, "o%d.%d.%v.%s.%v.%v%v;", op.kind, op.target, op.conn, op.winner, obs, op.pre, op.post)
+		fmt.Fprintf(&sig, "o%d.%d.%v.%v.%s.%v.%v%v;", op.kind, op.target, op.conn, op.reused, op.winner, obs, op.pre, op.post)
+		if op.reused {
+			// an open connection was returned: the swarm did not consult the detector and dialled nothing, so the
+			// reference does not move and neither may the counters
+			o.Logf("   (existing connection returned: no detector request)")
+			o.Probe("system-existing-connection-returned")
+			if !sample("after the (connection re-using)", op, op.post) {
+				return
+			}
+			continue
+		}
 
 		// ---- (1) (2) and the read-only rules, per address
 		for j, a := range op.addrs {
 			ks := applies(a)
-			if op.dialErr && obs[j] == 0 && len(ks) == 0 && !ro {
+			if op.dialErr && op.skipped == 0 && obs[j] == 0 && len(ks) == 0 && !ro {
 				// DialPeer failed and reported on every address it handled; this one is not in the report
 				// and never reached the wire
 				c := "other-kind"
@@ -766,15 +846,22 @@ func checkSystem(o *common.Outcome, ops []*sOp, cfgN, cfgM [2]int) {
 
 		// ---- (3) probe rule and the tail (4), per kind
 		for k := 0; k < 2; k++ {
-			nK, nRef, nPass := 0, 0, 0
+			nK, nRef, nPass, nPure, nPureRef := 0, 0, 0, 0, 0
 			for j, a := range op.addrs {
 				if a.priv || (k == 0 && !a.quic) || (k == 1 && !a.ip6) {
 					continue
 				}
 				nK++
+				pure := len(applies(a)) == 1 // only this detector may act on it
+				if pure {
+					nPure++
+				}
 				switch obs[j] {
 				case 2:
 					nRef++
+					if pure {
+						nPureRef++
+					}
 				case 1:
 					nPass++
 				}
@@ -783,19 +870,33 @@ func checkSystem(o *common.Outcome, ops []*sOp, cfgN, cfgM [2]int) {
 				continue
 			}
 			requests++
-			// a refusal counts for this detector only if its own State() was Blocked when the request came: an address
-			// that is both UDP and IPv6 may have been refused by the other detector (a detector that answers
-			// "probe" lets all addresses of its kind through, so a refused one was not probed by either)
-			if nRef == nK && op.pre[k] == stB {
+			// The detector refused this request if its own State() was Blocked when the request came and (a) an address
+			// that only it may act on was refused - a probe lets every address of the kind through, whatever else the
+			// request contains - or (b) the request has only addresses that are both UDP and IPv6 and all were refused
+			// (a detector that answers "probe" lets them through irrespective of the other one). A request whose
+			// UDP+IPv6 addresses went through while no pure address says otherwise may have been let through by either
+			// detector: it ends the run of refusals (weaker reading).
+			if op.pre[k] == stB && (nPureRef > 0 || (nPure == 0 && nRef == nK)) {
 				refusedRun[k]++
 				o.Probe("system-request-refused")
 				if refusedRun[k] >= cfgN[k] {
-					viol("C20/system/no-probe-within-window/"+kindName[k], "op %d at %v: %d consecutive dial requests with public %s addresses were refused entirely, N=%d", i, op.t0, refusedRun[k], kindName[k], cfgN[k])
+					viol("C20/system/no-probe-within-window/"+kindName[k], "op %d at %v: %d consecutive dial requests with public %s addresses were refused by the %s detector, N=%d", i, op.t0, refusedRun[k], kindName[k], kindName[k], cfgN[k])
 				}
 			} else {
 				refusedRun[k] = 0
 				if nPass > 0 && op.pre[k] == stB {
 					o.Probe("system-probe-let-through-while-blocked")
+					dialled := false
+					for _, a := range op.addrs {
+						if !a.priv && ((k == 0 && a.quic) || (k == 1 && a.ip6)) && (op.onWire[a.s] || op.winner == a.s || op.cause[a.s] == "error") {
+							dialled = true
+						}
+					}
+					if !dialled {
+						// the detector let the request through as a probe, the dial back-off then kept every address of
+						// the kind from being dialled: no record, the probe slot is gone (observation, not a violation)
+						o.Probe("system-probe-slot-spent-on-backoff")
+					}
 				}
 			}
 			if op.tail == k+1 {
